@@ -756,11 +756,12 @@ func augment(lines []string, guard, goal string, intFuncs map[string]bool) (extr
 		}
 	}
 	seen := map[string]bool{}
-	limit := 600
+	limit := 900
 	var prio []*sexp
+	witSrc := map[string]int{}
 	for round := 0; round < 3; round++ {
-		if len(terms) > 12 {
-			terms = terms[:12]
+		if len(terms) > 16 {
+			terms = terms[:16]
 		}
 		newApps := map[string]*sexp{}
 		bySort := map[string][]*sexp{"Int": terms}
@@ -812,11 +813,22 @@ func augment(lines []string, guard, goal string, intFuncs map[string]bool) (extr
 		}
 		var newWit []*sexp
 		nWit := 0
-		for _, f := range quantified {
+		for fi, f := range quantified {
 			if round >= 2 || !strings.Contains(f.String(), "(exists ") {
 				continue
 			}
-			for _, inst := range instancesSorted(f, constOnly, &limit) {
+			// a hypothesis is not instantiated at the witnesses it produced itself (forall x exists y ...
+			// fed with its own y only yields junk that crowds out the useful witnesses)
+			co := map[string][]*sexp{}
+			for k, v := range constOnly {
+				for _, t := range v {
+					if src, ok := witSrc[t.String()]; ok && src == fi {
+						continue
+					}
+					co[k] = append(co[k], t)
+				}
+			}
+			for _, inst := range instancesSorted(f, co, &limit) {
 				if nWit < 16 && strings.Contains(inst.String(), "(exists ") {
 					var hc [][2]string
 					if ni, ch := skolemiseHyp(inst, true, &counter, &hc); ch {
@@ -827,6 +839,7 @@ func augment(lines []string, guard, goal string, intFuncs map[string]bool) (extr
 							if c[1] == "Int" {
 								newApps[c[0]] = &sexp{atom: c[0]}
 								newWit = append(newWit, &sexp{atom: c[0]})
+								witSrc[c[0]] = fi
 							}
 						}
 					}
@@ -856,8 +869,8 @@ func augment(lines []string, guard, goal string, intFuncs map[string]bool) (extr
 		added := false
 		// the witnesses go first, in order of creation (the earliest come from the goal's own constants):
 		// the cut at the start of the next round must not drop them
-		if len(newWit) > 5 {
-			newWit = newWit[:5]
+		if len(newWit) > 10 {
+			newWit = newWit[:10]
 		}
 		var front []*sexp
 		prio = nil
@@ -868,6 +881,11 @@ func augment(lines []string, guard, goal string, intFuncs map[string]bool) (extr
 				off := offsetTerms(w)
 				front = append(front, off...)
 				prio = append(prio, off...)
+				if src, ok := witSrc[w.String()]; ok {
+					for _, o := range off {
+						witSrc[o.String()] = src
+					}
+				}
 			}
 			added = true
 		}
